@@ -18,8 +18,41 @@ def path(name):
 _cache = {}
 
 
+def strip_subboxes(data):
+    """Variant of a Glat v3 (octabox) font in which every glyph keeps its octabox but has no sub-boxes (bitmap 0): valid, and the
+    shape a collision font has before its designer adds sub-boxes."""
+    t = sfnt.parse(data)
+    glat, gloc = t.get(b'Glat'), t.get(b'Gloc')
+    if not glat or not gloc or struct.unpack('>I', glat[:4])[0] < 0x00030000 or (struct.unpack('>I', glat[4:8])[0] >> 27):
+        return data
+    ver, flags, nattr = struct.unpack('>IHH', gloc[:8])
+    long_fmt = flags & 1
+    w = 4 if long_fmt else 2
+    n = (len(gloc) - 8) // w
+    offs = struct.unpack('>%d%s' % (n, 'I' if long_fmt else 'H'), gloc[8:8 + w * n])
+    out = bytearray(glat[:offs[0]])
+    noffs = []
+    for i in range(n - 1):
+        d = glat[offs[i]:offs[i + 1]]
+        noffs.append(len(out))
+        if len(d) >= 6:
+            num = bin(struct.unpack('>H', d[:2])[0]).count('1')
+            out += b'\0\0' + d[2:6] + d[6 + 8 * num:]
+        else:
+            out += d
+    noffs.append(len(out))
+    if not long_fmt and noffs[-1] > 0xFFFF:
+        return data
+    t = dict(t)
+    t[b'Glat'] = bytes(out)
+    t[b'Gloc'] = gloc[:8] + struct.pack('>%d%s' % (n, 'I' if long_fmt else 'H'), *noffs) + gloc[8 + w * n:]
+    return sfnt.build(t)
+
+
 def load(name, minified=False):
     key = (name, minified)
+    if key not in _cache and name.endswith('#nosub'):
+        _cache[key] = strip_subboxes(load(name[:-6], minified))
     if key not in _cache:
         data = open(path(name), 'rb').read()
         if minified:
